@@ -130,8 +130,9 @@ def plan_other(pid, tier):
         P.append(("STEP basic K=2 M=2", layout.step_tasks("basic", 2, 2, 0, 0), dict(base)))
         # two-environment query: paths of one task that consulted the environment are compared pairwise
         # (same inputs, other environment choice); needs the whole task in one job
-        P.append(("ENVPAIRS simple K=0 M=2 / K=1 M=2 (pairwise query over environment-reading paths)",
-                  layout.step_tasks("simple", 0, 2, 0, 0) + layout.step_tasks("simple", 1, 2, 0, 0) + layout.step_tasks("basic", 1, 2, 0, 0) +
+        P.append(("ENVPAIRS simple K=0 M=2 / K=1 M=2 / K=2 M=1, basic, append (pairwise query over environment-reading paths)",
+                  layout.step_tasks("simple", 0, 2, 0, 0) + layout.step_tasks("simple", 1, 2, 0, 0) + layout.step_tasks("simple", 2, 1, 0, 0) +
+                  layout.step_tasks("basic", 1, 2, 0, 0) +
                   layout.step_tasks("append_data", 1, 2, 0, 0), dict(base, env_pairs=True, time_slice=3600)))
         P.append(("RESOLVER entry points", rd.resolver_tasks(native4), base))
         if tier != "quick":
@@ -410,6 +411,26 @@ def run(pid, tier):
                     v.violation(rp, "C13: generating code for the definition family panics: %s %s [build fact]" % (pan.group(1)[:120], pan.group(2)[:120]))
                 else:
                     v.inconc("the harness crate over the generated modules does not build: " + outb[-300:].replace("\n", " | "))
+            # a datum added and removed before its close is not a field: a module generated from a history in
+            # which such a datum carries wrong type information must still compile
+            if okb:
+                import check_genobl
+                okt, msgt = check_genobl.build_tools()
+                okg, msgg = check_genobl.generate("quick") if okt else (False, msgt)
+                if okg:
+                    pend = sorted(f[:-5] for f in os.listdir(check_genobl.OUT) if f.endswith(".json") and "_pending" in f)
+                    rejected = None
+                    for n in pend[:8]:
+                        acc, diag = check_genobl.compile_module(n, os.path.join(check_genobl.OUT, n + ".rs"))
+                        if not acc:
+                            rejected = (n, diag)
+                            break
+                    build_fact += "; %d modules whose never-placed datum carries wrong type information compile: %s" % (len(pend[:8]), "yes" if not rejected else "NO")
+                    if rejected:
+                        rp = os.path.join(rdir, rejected[0] + ".rs")
+                        sh(["cp", os.path.join(check_genobl.OUT, rejected[0] + ".rs"), rp])
+                        v.violation(rp, "C13: the module generated for a history whose never-placed datum (added and removed before its close) carries wrong "
+                                    "type information is rejected by rustc although every field is fine: %s [build fact]" % rejected[1][:200])
         except Exception as ex:  # noqa
             v.inconc("C13 build by-product failed to run: %r" % (ex,))
     kgen_layout = None
